@@ -31,6 +31,25 @@ fn main() {
         }
         return;
     }
+    if args.len() >= 2 && args[1] == "wf-witness" {
+        // vacuity guard: for every supported opcode there is a concrete instruction satisfying the
+        // precondition `wf_facts` the per-opcode harnesses assume (pc 0 of 4 slots, and pc 5 of 10)
+        let mut all = true;
+        for opc in 0..=255u8 {
+            if !spec::supported(opc) || opc == spec::OP_TAIL_CALL { continue; }
+            let mut found = [false, false];
+            for (k, (pc, n)) in [(0usize, 4usize), (5, 10)].iter().enumerate() {
+                'search: for dst in 0..=10u8 { for src in 0..=10u8 { for off in [0i16, 1, 2, -2] { for imm in [0i32, 1, 16, 32, 64, -1] {
+                    let i = spec::SInsn { opc, dst, src, off, imm };
+                    if spec::wf_facts(&i, *pc, *n) { found[k] = true; break 'search; }
+                } } } }
+            }
+            let ok = found[0] && found[1];
+            println!("OBLIGATION wf-witness:{:#04x} {} ", opc, if ok { "ok" } else { "failed" });
+            all &= ok;
+        }
+        std::process::exit(if all { 0 } else { 1 });
+    }
     eprintln!("usage: replay finding <id> | asm-table | step <witness.json>");
     std::process::exit(2);
 }
